@@ -67,6 +67,15 @@ def conversations(tier):
                       'conns': [{'status': {'mode': 'reply',
                                             'json': status_json(proto)}},
                                 {'login': [['success']], 'play': pl}]})
+        third = next(q for q in (340, 578, 107, 47, 757)
+                     if q not in (proto, other))
+        convs.append({'name': 'status-then-login[status,default-outside-'
+                              'allowed]/%d' % proto,
+                      'call': 'connect', 'allowed': [proto, other],
+                      'initial': third, 'fault_conn': 0,
+                      'conns': [{'status': {'mode': 'reply',
+                                            'json': status_json(proto)}},
+                                {'login': [['success']], 'play': pl}]})
         convs.append({'name': 'status-then-login[login]/%d' % proto,
                       'call': 'connect', 'allowed': [proto, other],
                       'initial': other, 'fault_conn': 1,
